@@ -168,10 +168,14 @@ def bare_oracle(ctx: Ctx, h, pd, py, why) -> None:
 GENERIC = 1   # class id of typing.Generic in the full-path streams (object = 0, own classes from 2)
 
 
-def gen_project(rng, nclasses: int, generic_anywhere: bool = False) -> Dict[str, Any]:
-    """a hierarchy spread over modules, as source text.  ids: 0 object, 1 typing.Generic, 2.. classes C2.."""
+def gen_project(rng, nclasses: int, generic_anywhere: bool = False, h=None) -> Dict[str, Any]:
+    """a hierarchy spread over modules, as source text.  ids: 0 object, 1 typing.Generic, 2.. classes C2..
+    `h` (bases over classes 1..n, as the exhaustive enumeration yields them) is shifted by one when given."""
     first = 2
-    h = random_hierarchy(rng, nclasses, first)
+    if h is None:
+        h = random_hierarchy(rng, nclasses, first)
+    else:
+        h = [tuple(j + 1 for j in b) for b in h]
     ids = list(range(first, first + nclasses))
     generic = {c: rng.random() < 0.35 for c in ids}
     nmod = rng.randint(1, 3)
@@ -481,8 +485,15 @@ def run(ctx: Ctx) -> None:
     # ---- full path
     nfull = 300 if ctx.quick else 6000
     freq, fout, greq, gout, fpay = [], [], [], [], []
+    projects = []
+    if not ctx.quick:     # thorough: the whole exhaustive space once more, as source text through the real System
+        for n in range(1, 6):
+            for h in hierarchies(n):
+                projects.append(gen_project(ctx.rng, n, h=h))
+        ctx.extra["exhaustive_cases_full_path"] = len(projects)
     for k in range(nfull):
-        p = gen_project(ctx.rng, ctx.rng.randint(3, 12))
+        projects.append(gen_project(ctx.rng, ctx.rng.randint(3, 12)))
+    for p in projects:
         pd, crash = pd_full(p)
         if crash:
             ctx.fail("crash:" + crash.split(":")[1], {"project": p}, crash)
